@@ -53,6 +53,14 @@ Theorem log_is_the_written_commands :
   /\ Forall (fun o => forall w ids, o_reply o = ROk w ids -> o_written o = true) outs.
 Proof. exact log_is_the_written_commands_proved. Qed.
 
+(* 2'. Every update / deactivation row in the log addresses a record created by an earlier event
+   of its workspace, and an update of V carries (and so leaves) the sys.IsActive value the record
+   has by the earlier events: a command never touches what it did not name. *)
+Theorem log_rows_well_formed :
+  forall fx tl steps st outs,
+  run fx tl 1 steps state0 = (st, outs) -> acts_ok [] (events st) = true.
+Proof. exact log_rows_well_formed_proved. Qed.
+
 (* 3. Exactly one reply per command, no dead processor - full statement:
 
      forall fx tl steps st outs, run fx tl 1 steps state0 = (st, outs) ->
@@ -123,6 +131,7 @@ Example history_nonvacuous :
   map o_reply outs = [ROk 1 [200001; 200002]; RServer; RClient; RClient; RServer]
   /\ map o_written outs = [true; true; false; false; true]
   /\ map e_tag (events st) = [1; 2; 5]
+  /\ map e_cuds (events st) = [[ENew 200001 5; ENew 200002 6]; [ENew 200003 7; EUpd 200001 8 true; EDeact 200002]; [ENew 200001 9]]
   /\ mem st = None
   /\ get2 (wlog (sto st)) 2 1 = None                       (* the last event is not yet in the WLog *)
   /\ get2 (recs (sto st)) 1 200001 = Some (mkRec 8 true)   (* the half-applied one was completed *)
@@ -188,6 +197,7 @@ Proof. vm_compute. repeat split. Qed.
 Print Assumptions recovery_restores_consistency.
 Print Assumptions serving_state_consistent.
 Print Assumptions log_is_the_written_commands.
+Print Assumptions log_rows_well_formed.
 Print Assumptions every_command_answered.
 Print Assumptions every_command_answered_refuted.
 Print Assumptions every_command_answered_partial.
